@@ -16,7 +16,7 @@ CHECKS = {
          "DESIGN.md §3 C08, §2.2"),
  "C19": ("exploration",
          "complete enumeration of the colour space and of a configuration grid through the real parser against a reference acceptance predicate; start-up probes of every accepted single and pairwise configuration",
-         "All 16^6 (quick) / 22^6 (thorough) six-digit colours and all 21.4 million strings of length <=7 over an 11-symbol alphabet through the real converter; the full product hook(7) x cache_size(7) x preload_amount(8) x timeout_seconds(8) x feeds(5), the four colours (6^4) and unknown keys, unknown tables (also ones that hold nothing) and a syntax error pairwise with every key through the real parser: reject / accept exactly as the reference says, accepted colours are decimal triples 0..255; every accepted configuration with at most two keys set starts a probe process (this binary under XDG_CONFIG_HOME) driving the real UI: rejected with a diagnostic or runs to PROBE-OK.",
+         "All 16^6 (quick) / 22^6 (thorough) six-digit colours and all 21.4 million strings of length <=7 over an 11-symbol alphabet through the real converter; the full product hook(7) x cache_size(7) x preload_amount(8) x timeout_seconds(8) x feeds(5), the four colours (6^4) and unknown keys, unknown tables (also ones that hold nothing) and a syntax error pairwise with every key through the real parser: reject / accept exactly as the reference says, accepted colours are decimal triples 0..255; every accepted configuration with at most two keys set starts a probe process (this binary under XDG_CONFIG_HOME) driving the real UI: rejected with a diagnostic or runs to PROBE-OK with well-formed colours in effect; six start-up environments (file empty or absent under XDG_CONFIG_HOME, only HOME, neither variable, both empty, file under HOME) must give the same defaults and use the HOME file.",
          "Trusted: the reference acceptance predicate and the probe script in checks/c19; well-typed but out-of-range values may be rejected or accepted (only accepted-and-crashing counts); the probe exercises open, move, select, links, media, history, creators, every configured feed plus an unknown one, and resize over the in-memory peer.",
          "DESIGN.md §3 C19"),
  "C01": ("exploration",
@@ -56,7 +56,7 @@ CHECKS = {
          "DESIGN.md §3 C03"),
  "C20": ("exploration",
          "bounded-exhaustive enumeration of hook configurations x hostile links x media types x entry points through the real UI with a real exec of a dump program",
-         "Hook = dump program + every argument sequence of length <=2 (quick, 94 hooks) / <=3 (thorough, 823) over 9 tokens (placeholders, embedded and repeated placeholders, wrong case, --, empty) plus hooks whose program name is a placeholder; 22 links (four exactly a placeholder, one with userinfo, spaces, quotes, ;, $(), backticks, leading dashes, text that looks like a placeholder, 4 kB, the path of an executable) x 7 media types (three made of placeholder-like tokens, one unknown) x 7 entry points (o, number+Enter for body link, named and unnamed attachment, p, b): exactly one process per key, argv equals the configured argv with exact-match substitution at indices >= 1, stdin carries the link iff no %url argument, the program name is never substituted, the UI returns to normal mode.",
+         "Hook = dump program + every argument sequence of length <=2 (quick, 94 hooks) / <=3 (thorough, 823) over 9 tokens (placeholders, embedded and repeated placeholders, wrong case, --, empty) plus hooks whose program name is a placeholder; 22 links (four exactly a placeholder, one with userinfo, spaces, quotes, ;, $(), backticks, leading dashes, text that looks like a placeholder, 4 kB, the path of an executable) x 7 media types (three made of placeholder-like tokens, one unknown) x 7 entry points (o, number+Enter for body link, named and unnamed attachment, p, b): exactly one process per key, argv equals the configured argv with exact-match substitution at indices >= 1, stdin carries the link iff no %url argument, the program name is never substituted, the UI returns to normal mode. 12 hooks with white space around or instead of arguments are loaded from a real config.toml by servitor's own start-up code in a child process and must arrive as written.",
          "Trusted: /verif/bin/vdump (records argv/stdin); the expected link and media type come from the generated world (which link was put in which slot with which declared type), the item's own selector is only cross-checked against it; every page's opens are pressed in sequence and in reverse under one configuration object; UI in pass-through mode over the in-memory peer.",
          "DESIGN.md §3 C20"),
  "C11": ("model_checking",
@@ -71,17 +71,17 @@ CHECKS = {
          "DESIGN.md §3 C10"),
  "C12": ("exploration",
          "bounded-exhaustive enumeration of link-bearing documents x attachment lists x hosts x widths; shown numbers parsed from the rendering and compared with SelectLink",
-         "Every HTML forest with <=3 (quick) / <=4 (thorough) nodes over 14 labels in which each link-bearing element has a unique target and label, Markdown/gemtext/plaintext line sequences, posts, activities and actors, attachment lists up to 2/3 of 5 kinds, 8 widths from 1 to 80: numbers shown are exactly 1..N once each, the number next to a label opens that label's target, every target is reachable, and min-int,-1,0,N+1,N+2,max-int open nothing without panicking. UI part: on one document per media type every k in 0..N+1 is typed (digits + Enter) through the real ui.State with a real exec of a dump program, on a fresh page, after a cancelled number and command, and while the viewer opened for number 1 / N is still running: the hook receives exactly SelectLink(k)'s target.",
+         "Every HTML forest with <=3 (quick) / <=4 (thorough) nodes over 14 labels in which each link-bearing element has a unique target and label, Markdown/gemtext/plaintext line sequences, posts, activities and actors, attachment lists up to 2/3 of 5 kinds, 8 widths from 1 to 80: numbers shown are exactly 1..N once each, the number next to a label opens that label's target, every target is reachable, and min-int,-1,0,N+1,N+2,max-int open nothing without panicking. UI part: on one document per media type every k in 0..N+1 is typed (digits + Enter) through the real ui.State with a real exec of a dump program, on a fresh page, after a cancelled number and command, while the viewer opened for number 1 / N is still running, and with a viewer that fails between the digits and Enter: the hook receives exactly SelectLink(k)'s target.",
          "Trusted: the label/number association (label text immediately before the number after removing blanks and decoration glyphs; underlined text for plain text); the independent walk over the x/net/html tree that lists link-bearing elements (a non-li child of a list is shown as a markup error, not a link); documents have fewer than ten numbered elements.",
          "DESIGN.md §3 C12"),
  "C14": ("exploration",
          "bounded-exhaustive enumeration of style expressions x layout sequences, judged by an SGR state machine",
-         "All 17^3 x 5 expressions f(g(h(leaf))) and 17^3 x 25 expressions f(g(x)+h(y)) over the exported style functions, each followed by every layout sequence of length <=1 (quick, 1.9e6 outputs) / <=2 (thorough, 2.7e7 outputs); per-letter attribute sets (and those of the blank between two letters of a leaf) equal the union of the enclosing styles under two palettes, nothing is active at any line end or at the end of the string, layout never changes a surviving letter's attributes, and a call-history phase runs every ordered pair of calls over 28 operations x 6 arguments and compares the second result with the same call in isolation.",
+         "All 17^3 x 6 expressions f(g(h(leaf))) and 17^3 x 36 expressions f(g(x)+h(y)) over the exported style functions and 6 leaves (incl. one starting a line with a combining mark), 14 layout operations (Wrap, DumbWrap, Pad at 1,3,80; Indent plain and styled; Snip at three sizes), each followed by every layout sequence of length <=1 (quick, 1.9e6 outputs) / <=2 (thorough, 2.7e7 outputs); per-letter attribute sets (and those of the blank between two letters of a leaf) equal the union of the enclosing styles under two palettes, nothing is active at any line end or at the end of the string, layout never changes a surviving letter's attributes, and a call-history phase runs every ordered pair of calls over 28 operations x 6 arguments and compares the second result with the same call in isolation.",
          "Trusted: lib/oracle SGR machine and the per-function attribute table in checks/c14; decoration cells are checked for neutrality only. Markup documents and frames are checked for neutrality by the C01/C06/C07 enumerations, not here.",
          "DESIGN.md §3 C14"),
  "C15": ("model_checking",
          "bounded-exhaustive document enumeration for the width bound; explicit-state search over render histories (state = cached width) compared with fresh parses",
-         "Every HTML forest with <=2 nodes over 33 labels and <=3/4 nodes over 14 representative labels, every gemtext/Markdown/plaintext line sequence up to 2/3 items, rendered through object.GetMarkup at 16 widths: no line longer than the width. Every width history of length <=2/3 over {1,3,80,81,200} on the complete <=2-node spaces: Render(w) equals a fresh parse's Render(w), and two fresh parses agree.",
+         "Every HTML forest with <=2 nodes over 33 labels and <=3/4 nodes over 14 representative labels, every gemtext/Markdown/plaintext line sequence up to 2/3 items, rendered through object.GetMarkup at 16 widths: no line longer than the width. Every width history of length <=2/3 over {1,3,80,81,200} on the complete <=2-node spaces: Render(w) equals a fresh parse's Render(w), and two fresh parses agree. Nine large documents (40/200/700-line code listings in HTML and Markdown, 300 paragraphs, gemtext and plain listings; renderings from tens of kilobytes to over a megabyte) cross size thresholds inside the renderers: width bound at 60/80/100 and 3 (quick) / 11 (thorough) short histories that repeat a width (quick uses listings of 40 and 150 lines).",
          "Trusted: document grammars in lib/gen; rune-count line length; x/net/html and goldmark are explored through, not modelled.",
          "DESIGN.md §3 C15"),
  "C13": ("exploration",
